@@ -20,8 +20,10 @@ ASSUMPTIONS = ['exhaustive optimum = DFS over all simple source->sink paths '
 
 def shards(tier):
     if tier == 'quick':
-        return [dict(kind='paths', n=2400, parts=16, timeout=900)]
-    return [dict(kind='paths', n=64000, parts=16, timeout=3400)]
+        return [dict(kind='paths', n=2400, parts=16, timeout=900),
+                dict(kind='huge', n=1, parts=1, timeout=900, start=900000)]
+    return [dict(kind='paths', n=64000, parts=16, timeout=3400),
+            dict(kind='huge', n=4, parts=2, timeout=3400, start=900000)]
 
 
 def setup(ctx):
@@ -120,8 +122,51 @@ def gen_graph(rng):
     return kind, NF.astype(float), src, snk, False
 
 
+def run_huge(ctx, rng, idx):
+    """More states than a 16-bit index can address (the search keeps a
+    predecessor table indexed by state): two planted, disjoint routes through
+    states numbered above 32767 in an otherwise empty flux matrix (zero pages
+    are never touched, so the matrix costs little real memory)."""
+    n = 32768 + int(rng.integers(64, 400))
+    NF = np.zeros((n, n), dtype=np.float16)
+    hi = [int(x) for x in rng.choice(np.arange(32768, n), size=9,
+                                     replace=False)]
+    s_, t_ = hi[0], hi[1]
+    A = [s_] + hi[2:2 + int(rng.integers(1, 4))] + [t_]
+    B = [s_] + hi[5:5 + int(rng.integers(1, 4))] + [t_]
+    fA, fB = 0.5, 0.25
+    for r, f in ((A, fA), (B, fB)):
+        for a, b in zip(r[:-1], r[1:]):
+            NF[a, b] = f
+    ctx.describe({'n_states': n, 'route_A': A, 'route_B': B,
+                  'fluxes': [fA, fB]})
+    ctx.count('huge_matrices')
+    try:
+        p1, f1 = path.top_path([s_], [t_], NF)
+        ps, fs = path.paths([s_], [t_], NF, num_paths=2,
+                            remove_path=['subtract', 'bottleneck'][idx % 2])
+    except Exception as e:  # noqa
+        ctx.crash('paths.huge.raised', e)
+        return
+    ctx.count('paths_checked', 3)
+    if [int(x) for x in p1] != A or abs(float(f1) - fA) > 1e-6:
+        ctx.violation('paths.huge.top-path-wrong',
+                      '%d states: top path %s flux %r, planted widest route '
+                      '%s flux %s' % (n, [int(x) for x in p1], float(f1), A,
+                                      fA))
+    got = [[int(x) for x in p_] for p_ in ps]
+    if got != [A, B] or np.abs(np.asarray(fs, dtype=float) -
+                               np.array([fA, fB])).max() > 1e-3:
+        ctx.violation('paths.huge.paths-wrong',
+                      '%d states: paths %s fluxes %s, planted %s with %s' % (
+                          n, got, np.asarray(fs).tolist(), [A, B], [fA, fB]))
+    ctx.nontriv('huge', n, tuple(A), tuple(B))
+
+
 def run_case(ctx, kind_, rng, idx):
     from vf.monitor import Frozen
+    if kind_ == 'huge':
+        return run_huge(ctx, rng, idx)
     kind, NF, src, snk, conserved = gen_graph(rng)
     n = len(NF)
     # pathways are scale-equivariant: rare-event fluxes are tiny numbers
